@@ -3,7 +3,7 @@
    correspondence run (harness/cmd/hC03) compares with the real code on every check. *)
 From Coq Require Import List Bool Arith NArith ZArith.
 Import ListNotations.
-From C03 Require Import Model ProofsCodec ProofsSearch ProofsNav ProofsGen ProofsLids ProofsBlocks ProofsDocs ProofsTables.
+From C03 Require Import Model ProofsCodec ProofsSearch ProofsNav ProofsGen ProofsLids ProofsBlocks ProofsDocs ProofsTables ProofsTokTab.
 
 (* thm:C03_lids_roundtrip — for ALL posting lists (per field, per token; non-empty, strictly
    increasing, every LID below the end marker 2^32-1), every block capacity > 0, every token tid and
@@ -110,6 +110,20 @@ Theorem C03_form_independent : forall cap fields im bs tid lo hi asc,
 Proof. exact form_independent. Qed.
 Print Assumptions C03_form_independent.
 
+(* token table of a sealed fraction (writeTokensBlocks over the generator's blocks: entries with StartTID,
+   ValCount, StartIndex, BlockIndex; physical blocks cut by FlushForced at the start of a field larger than
+   16 KiB and by FlushIfNeeded): for EVERY dictionary (any fields, any token lengths) the table is built, and
+   for every TID 1..N Table.GetEntryByTID finds an entry, that entry is the ONLY one covering the TID (so the
+   map iteration order does not matter), and Block.GetValByTID at StartIndex + tid - StartTID of that entry's
+   physical block is the TID-th token of the (field, value)-sorted dictionary. *)
+Theorem C03_token_table_exact : forall fields,
+  exists es bl, tok_table fields = Ok (es, bl) /\
+    forall tid, (1 <= tid <= N.of_nat (length (concat fields)))%N ->
+      (exists e, find_entry es tid = Some e /\ forall e', In e' es -> te_covers e' tid = true -> e' = e)
+      /\ val_of_tid es bl tid = Some tid.
+Proof. exact tok_table_exact. Qed.
+Print Assumptions C03_token_table_exact.
+
 (* ---------------------------------------------------------------- non-vacuity and refutations *)
 
 (* hypotheses of C03_lids_roundtrip are satisfiable, on a layout with a token spanning three blocks
@@ -203,3 +217,10 @@ Example C03_ids_tables_witness :
   load (registry_of im) = Some (preloaded im)
   /\ preloaded im = mkTables [(900, 5); (100, 7)]%N 7 14 (table_of bs).
 Proof. vm_compute. split; reflexivity. Qed.
+
+(* two fields of three 9000-byte tokens: four physical blocks, StartIndex restarts with every block *)
+Example C03_token_table_witness :
+  tok_table [[9000; 9000; 9000]; [9000; 9000; 9000]]%N
+  = Ok ([mkTE 1 1 0 1; mkTE 2 1 1 1; mkTE 3 1 0 2; mkTE 4 1 0 3; mkTE 5 1 1 3; mkTE 6 1 0 4],
+        [(1, [1; 2]); (2, [3]); (3, [4; 5]); (4, [6])])%N.
+Proof. vm_compute. reflexivity. Qed.
